@@ -135,8 +135,8 @@ def run(ctx):
         ctx.tlc("MC_Order", "run.cfg", extra_files={"run.cfg": f"SPECIFICATION Spec\nCONSTANTS\n  Nodes = {nodes}\nINVARIANT InvConfluentScc\nCHECK_DEADLOCK FALSE\n"},
                 label="MC_Order confluence, 3 classes", timeout=3000)
         if not ctx.quick:
-            ctx.tlc("MC_Order", "run.cfg", extra_files={"run.cfg": "SPECIFICATION Spec\nCONSTANTS\n  Nodes = {1, 2, 3, 4}\nCONSTRAINT NoSelfLoops\nINVARIANT InvConfluentScc\nCHECK_DEADLOCK FALSE\n"},
-                    label="MC_Order confluence, 4 classes (no self loops)", timeout=6000)
+            ctx.tlc("MC_Order", "run.cfg", extra_files={"run.cfg": "INIT InitFew\nNEXT Next\nCONSTANTS\n  Nodes = {1, 2, 3, 4}\nINVARIANT InvConfluentScc\nCHECK_DEADLOCK FALSE\n"},
+                    label="MC_Order confluence, 4 classes (no self loops, 24 x 2 visiting orders)", timeout=3000)
         ctx.exhaustive = True
         res = ctx.tlc("MC_Order", "run.cfg", workers=1,
                       extra_files={"run.cfg": f"SPECIFICATION Spec\nCONSTANTS\n  Nodes = {nodes}\nCONSTRAINT EmitGraph\nCHECK_DEADLOCK FALSE\n"},
